@@ -684,7 +684,7 @@ func VerifC19Parts() {
 	verifPanicsAreViolations()
 	maxUsers, maxPerms := 2, 1
 	if verifTier() == 1 {
-		maxUsers, maxPerms = 3, 2
+		maxUsers, maxPerms = 2, 2
 	}
 	t, c := verifBuildTable(maxUsers, maxPerms)
 	u, pw, perm := verifQuery()
